@@ -385,7 +385,14 @@ static bool doReinit(Interp& I, const Step& s)
     // edges held across cleanup are detached
     for (size_t f = 0; f < W.F.size(); f++) if (W.F[f]) { W.F[f] = nullptr; if (!checkDetached(I, int(f))) return false; }
     for (auto& D : W.doms) D.d = nullptr;
-    for (size_t sl = 0; sl < W.slots.size(); sl++) if (W.slots[sl].e) W.release(int(sl));     // destructors of detached edges must be safe
+    // a few of the detached edges stay alive across the next initialisation ("ghosts"): they must remain
+    // inert although the new forests get the same identifiers; the others are destroyed now
+    std::vector<dd_edge*> ghosts;
+    for (size_t sl = 0; sl < W.slots.size(); sl++) {
+        if (!W.slots[sl].e) continue;
+        if (ghosts.size() < 4) { ghosts.push_back(W.slots[sl].e); W.slots[sl].e = nullptr; W.slots[sl].f = -1; }
+        else W.release(int(sl));     // destructors of detached edges must be safe
+    }
     W.inited = false;
     W.F.clear(); W.fs.clear(); W.doms.clear();
     I.destroyedFids.clear();
@@ -395,6 +402,15 @@ static bool doReinit(Interp& I, const Step& s)
     for (auto& d : I.P.domains) W.addDomain(d);
     for (auto& f : I.P.forests) W.addForest(f);
     I.R.labels.add("reinitialized");
+    bool ghostBad = false;
+    for (dd_edge* g : ghosts) {
+        if (g->getForest() != nullptr || g->getNode() != 0) ghostBad = true;
+        dd_edge cp(*g);
+        if (cp.getForest() != nullptr || cp.getNode() != 0) ghostBad = true;
+    }
+    if (!ghosts.empty()) I.R.labels.add("edge_kept_across_reinitialisation");
+    for (dd_edge* g : ghosts) delete g;
+    if (ghostBad) return I.fail("C17.detached-edge", "an edge kept across cleanup() and initialize() reports a forest of the new initialisation");
     return true;
 }
 
